@@ -447,6 +447,7 @@ func runC13(h *H) {
 		env := newOapiEnv()
 		steps := g.intn(h.budget(8, 60)) + 1
 		w := &W{}
+		nops := 0
 		if k%8 == 5 {
 			// scripted prefix: a stored matrix that is LARGE but holds no entry (none sent, or only zeros,
 			// which the loader drops), then merges of smaller matrices: the size must stay the maximum
@@ -456,12 +457,15 @@ func runC13(h *H) {
 				big.entries = []mEntry{{big.size - 1, 0, 0}, {0, big.size - 1, 0}}
 			}
 			res := env.do("PUT", "/local-trust/"+id, mustJSON(big.json()), wd)
+			nops++
 			w.Str("put").Str(id).Bool(false).mref(big).Bar().storeBody(res)
 			for j := 0; j < 2; j++ {
 				small := g.inlineMatrix(g.intn(big.size-1)+1, true)
 				res = env.do("PUT", "/local-trust/"+id+"?merge=true", mustJSON(small.json()), wd)
+				nops++
 				w.Str("put").Str(id).Bool(true).mref(small).Bar().storeBody(res)
 				res = env.do("GET", "/local-trust/"+id, nil, wd)
+				nops++
 				w.Str("get").Str(id).Bar().storeBody(res)
 			}
 			steps += 5
@@ -492,6 +496,15 @@ func runC13(h *H) {
 				case 3:
 					m = mRef{kind: "inline", size: g.intn(4) + 1}
 					g.count("empty-matrix")
+				case 4, 5:
+					// the body names a STORED matrix: another id, a missing one, or the very id being written
+					m = mRef{kind: "stored", id: ids[g.intn(len(ids))]}
+					if g.intn(2) == 0 {
+						m.id = id
+						g.count("stored-body:self-reference")
+					} else {
+						g.count("stored-body:other-id")
+					}
 				default:
 					m = g.inlineMatrix(g.intn(5)+1, true)
 				}
@@ -500,23 +513,38 @@ func runC13(h *H) {
 					path += "?merge=true"
 				}
 				res := env.do("PUT", path, mustJSON(m.json()), wd)
+				nops++
 				w.Str("put").Str(id).Bool(merge).mref(m).Bar().storeBody(res)
 				g.count("op:put")
+				if m.kind == "stored" {
+					// what the store holds after a PUT whose body named a stored matrix is looked at right away
+					res = env.do("GET", "/local-trust/"+id, nil, wd)
+					nops++
+					w.Str("get").Str(id).Bar().storeBody(res)
+					if m.id != id {
+						res = env.do("GET", "/local-trust/"+m.id, nil, wd)
+						nops++
+						w.Str("get").Str(m.id).Bar().storeBody(res)
+					}
+				}
 			case 3, 4:
 				res := env.do("GET", "/local-trust/"+id, nil, wd)
+				nops++
 				w.Str("get").Str(id).Bar().storeBody(res)
 				g.count("op:get")
 			case 5:
 				res := env.do("HEAD", "/local-trust/"+id, nil, wd)
+				nops++
 				w.Str("head").Str(id).Bar().storeBody(res)
 				g.count("op:head")
 			default:
 				res := env.do("DELETE", "/local-trust/"+id, nil, wd)
+				nops++
 				w.Str("delete").Str(id).Bar().storeBody(res)
 				g.count("op:delete")
 			}
 		}
-		h.emit(h.line("C13", "hist").Int(steps).Str(w.String()))
+		h.emit(h.line("C13", "hist").Int(nops).Str(w.String()))
 	}
 	runConcStore(h, "C13")
 	runConcDirect(h, "C13")
@@ -536,6 +564,21 @@ func runC14(h *H) {
 		r := g.validOReq(true)
 		if k%2 == 1 {
 			g.stochasticRows(&r.lt)
+		}
+		if k%10 == 4 {
+			// a dimension at which the default (uniform) pre-trust is NOT a fixed point of canonicalisation in
+			// floats (n copies of fl(1/n) do not sum to exactly 1), no pre-trust given: whatever the server keeps
+			// from one request to the next shows in the last bits of the next answer
+			n := uniformNotFixedDims()[g.intn(len(uniformNotFixedDims()))]
+			r.lt = mRef{kind: "inline", size: n}
+			for i := 0; i < n; i++ {
+				for _, j := range g.support(n, 1+g.intn(3)) {
+					r.lt.entries = append(r.lt.entries, mEntry{i, j, float64(g.intn(16)+1) / 4})
+				}
+			}
+			r.pt, r.it = nil, nil
+			r.flat, r.leaders = nil, nil
+			g.count("uniform-pretrust-not-a-fixed-point-of-canonicalisation")
 		}
 		id := fmt.Sprintf("s%d", k%7)
 		put := env.do("PUT", "/local-trust/"+id, mustJSON(r.lt.inlineJSON()), wd)
@@ -648,4 +691,25 @@ func (g *G) stochasticRows(m *mRef) {
 			m.entries[k].V = best[i]
 		}
 	}
+}
+
+var uniformNotFixed []int
+
+// dimensions n in 2..200 for which n copies of fl(1/n) have a compensated sum different from 1
+func uniformNotFixedDims() []int {
+	if uniformNotFixed == nil {
+		for n := 2; n <= 200; n++ {
+			var k sparse.KBNSummer
+			for i := 0; i < n; i++ {
+				k.Add(1 / float64(n))
+			}
+			if k.Sum() != 1 {
+				uniformNotFixed = append(uniformNotFixed, n)
+			}
+		}
+		if len(uniformNotFixed) == 0 {
+			uniformNotFixed = []int{49}
+		}
+	}
+	return uniformNotFixed
 }
